@@ -170,7 +170,9 @@ func vhC15RoundTrip() {
 		verifCover("C15/empty-message")
 		return
 	}
-	var m2 Message
+	// the receiver is reused: whatever it held before must be overwritten
+	m2 := Message{ID: ID("stale"), Type: Type("stale"), Retry: 42 * time.Second}
+	m2.AppendData("stale")
 	uerr := m2.UnmarshalText(text)
 	verifAssert(uerr == nil, "C15/UnmarshalText-accepts-own-encoding")
 	if uerr != nil {
@@ -211,8 +213,9 @@ type vhFaultWriter struct {
 
 func (w *vhFaultWriter) Write(p []byte) (int, error) {
 	if w.failed {
+		// the fault was transient: later writes would succeed - there must not be any
 		w.after++
-		return 0, vhErrWrite
+		return len(p), nil
 	}
 	if w.pos+len(p) > len(w.full) || string(p) != w.full[w.pos:w.pos+len(p)] {
 		w.mismatch = true
@@ -280,4 +283,43 @@ func vhC15Retry() {
 	err := m2.UnmarshalText([]byte(s))
 	verifAssert(err == nil && m2.Retry == time.Duration(ms)*time.Millisecond, "C15/retry/roundtrip-to-the-millisecond")
 	verifCover("C15/retry/written")
+}
+
+// Long single lines (concrete lengths 0..LONGMAX): encoders agree, the line round-trips,
+// the byte count is exact. Complements the symbolic short strings: buffer-size boundaries
+// inside the encoder would show here.
+func vhC15Long() {
+	n := verifChoose("len", verifParam("LONGMAX", 300)+1)
+	b := make([]byte, n)
+	for i := range b {
+		b[i] = 'a' + byte(i%26)
+	}
+	m := &Message{}
+	isComment := verifChoose("iscomment", 2) == 1
+	if isComment {
+		m.AppendComment(string(b))
+	} else {
+		m.AppendData(string(b))
+	}
+	m.AppendData("tail")
+	text, _ := m.MarshalText()
+	var buf bytes.Buffer
+	cnt, err := m.WriteTo(&buf)
+	verifAssert(err == nil && cnt == int64(len(text)) && buf.String() == string(text) && m.String() == string(text), "C15/long/encoders-agree-and-count-is-exact")
+	var m2 Message
+	verifAssert(m2.UnmarshalText(text) == nil, "C15/long/decodes")
+	want := 2
+	if n == 0 {
+		want = 1 // appending "" adds no line
+	}
+	verifAssert(len(m2.chunks) == want, "C15/long/line-count")
+	if len(m2.chunks) == 2 {
+		verifAssert(m2.chunks[0].content == string(b) && m2.chunks[0].isComment == isComment && m2.chunks[1].content == "tail", "C15/long/lines-intact")
+	}
+	o := vhRunRead(bytes.NewReader(text), nil, -1)
+	if isComment || n == 0 {
+		verifAssert(len(o.events) == 1 && o.events[0].Data == "tail", "C02/long/decoded-by-Read")
+	} else {
+		verifAssert(len(o.events) == 1 && o.events[0].Data == string(b)+"\ntail", "C02/long/decoded-by-Read")
+	}
 }
